@@ -166,7 +166,8 @@ func (s *SearchParams) String() string {
 		}
 
 		s.QueryEscape(nvp.Name, &output)
-		if !s.url.parser.opts.skipEqualsForEmptySearchParamsValue || nvp.Value != "" {
+		// a pair with an empty name and an empty value must not serialize to nothing: it would be lost on re-parse
+		if !s.url.parser.opts.skipEqualsForEmptySearchParamsValue || nvp.Value != "" || nvp.Name == "" {
 			output.WriteRune('=')
 		}
 		if nvp.Value != "" {
